@@ -132,8 +132,18 @@ StepBlock ==
          known == txh2 \cap DOMAIN hist2
          O == [self |-> FALSE, exec |-> [x \in known |-> hist2[x].exec], rows |-> [x \in known |-> hist2[x].rows],
                rated |-> ob.rated, rates |-> ObsRates(ob), bal |-> ObsBal(ob.bal)]
-         res == ApplyBlock(cur, in, O)
-         iss == res.iss \cup Compare(cur, res, in, ob, hist2)
+         resH == ApplyBlockM(cur, in, O, "design")
+         issH == resH.iss \cup Compare(cur, resH, in, ob, hist2)
+         \* C07/C03/C04... fix the conversion formula, not which blocks form the average: accept the
+         \* window as the implementation maintains it, and file that dependence under C09 alone.
+         useCache == issH # {} /\ resH.info.avgsDiffer /\ in.h >= TAct("PIP10")
+         resM == ApplyBlockM(cur, in, O, "cache")
+         issM == resM.iss \cup Compare(cur, resM, in, ob, hist2)
+         cacheExplains == useCache /\ issM = {}
+         res == IF cacheExplains THEN resM ELSE resH
+         iss == IF cacheExplains
+                THEN {<<"C09", <<"conversion priced with an averaging window that depends on when the process was started (reload by height after a restart)", in.h>>>>}
+                ELSE issH
          \* continue from the observed state
          nxt == [res.S EXCEPT !.bal = ObsBal(ob.bal),
                               !.holding = cur.holding \o [i \in 1..Len(ob.holding) |-> [hash |-> ob.holding[i].hash, h |-> ob.holding[i].h]],
@@ -144,12 +154,17 @@ StepBlock ==
          /\ cur' = nxt /\ hist' = hist2 /\ txh' = txh2
          /\ nIss' = nIss + Cardinality(iss)
 
+StepRestart ==      \* clean stop + start: everything held only in memory is gone
+  /\ Tr[l].ev = "Restart"
+  /\ cur' = [cur EXCEPT !.cache = EmptyCache]
+  /\ UNCHANGED <<hist, txh, nIss>>
+
 StepOther ==
-  /\ Tr[l].ev \notin {"Start", "Block"}
+  /\ Tr[l].ev \notin {"Start", "Block", "Restart"}
   /\ UNCHANGED <<cur, hist, txh, nIss>>
 
 Next == /\ l <= Len(Tr)
-        /\ (StepStart \/ StepBlock \/ StepOther)
+        /\ (StepStart \/ StepBlock \/ StepRestart \/ StepOther)
         /\ l' = l + 1
 
 Spec == Init /\ [][Next]_vars
